@@ -244,6 +244,30 @@ def control_coefficient_definition(rng, n_state=None, n_control=None):
     return Definition(dt, state, control, [], model, {})
 
 
+def force_inverse_composition(rng, d: Definition):
+    """make sure a definition of the transcendental stream contains an inverse∘forward composition in an update and in a
+    reading (a simplifier that cancels it is only right on the principal branch)"""
+    pairs = [(sympy.asin, sympy.sin), (sympy.acos, sympy.cos), (sympy.atan, sympy.tan)]
+    s = rng.choice(d.state)
+    inv, fwd = rng.choice(pairs)
+    arg = s + rng.choice(d.state) * Rational(1, 2) + d.dt
+    d.state_model[s] = d.state_model[s] + inv(fwd(arg))
+    for rd in d.sensors.values():
+        r = rng.choice(sorted(rd))
+        inv, fwd = rng.choice(pairs)
+        rd[r] = rd[r] + inv(fwd(rng.choice(d.state) + 1))
+        break
+    d.transcend = True
+    return d
+
+
+def unsort_readings(d: Definition):
+    """declare the readings of every sensor (and the sensors) in reverse-sorted order, so that dict insertion order differs
+    from name order wherever there are two or more"""
+    d.sensors = {k: {r: d.sensors[k][r] for r in sorted(d.sensors[k], reverse=True)} for k in sorted(d.sensors, reverse=True)}
+    return d
+
+
 def gen_point(rng, d: Definition):
     return {
         "dt": Fraction(rng.randint(1, 16), 32),
